@@ -55,6 +55,9 @@ pub fn c05_def() -> PropDef {
             "fault.fn_suspend_deferred",
             "fault.spurious_poll",
             "fault.fresh_waker",
+            "hit.call_with_a_call_in_its_argument",
+            "hit.cached_call_whose_argument_made_calls",
+            "hit.operator_chain_of_34_or_more_operands",
         ],
     }
 }
